@@ -189,6 +189,11 @@ def variations(secs):
                       _mk_add(i, 'encoding', s.eff)))
         V.append(('add:unknown@%d' % i, _mk_add(i, 'x-producer', 'v1.2/a')))
         V.append(('add:unknown-int@%d' % i, _mk_add(i, 'zz', '-7')))
+        if i == len(secs) - 1:
+            # values that look like integers to int() but not to the format
+            for val in ('-4_2', '2024_01_15', '007', '1e3'):
+                V.append(('add:unknown-intlike:%s@%d' % (val, i),
+                          _mk_add(i, 'zy', val)))
         for bl in (b'\n', b'  \n', b'\n\n', b'\t\n'):
             V.append(('blank:%r@%d' % (bl, i), _mk_blank(i, bl)))
     return V
@@ -319,6 +324,12 @@ def defects(secs):
                 D.append(('version=%s' % v, i, _mk_set(i, 'version', v)))
         if s.is_content:
             D.append(('length-missing', i, _mk_nolength(i)))
+            if len(s.body) >= 10:
+                # integer spellings the format does not have but Python's
+                # int() accepts (PEP 515 underscores)
+                ln = str(len(s.body))
+                D.append(('length-underscore', i,
+                          _mk_set(i, 'length', ln[0] + '_' + ln[1:])))
             for how in ('replace-newline', 'strip-newline', 'other-kind',
                         'half-newline', 'dangling-indent'):
                 D.append(('no-final-newline:%s' % how, i,
